@@ -188,7 +188,10 @@ PROPS = {
                         "(observed maximum is reported as max_ticks_per_byte); loops that do not pass through those functions would only "
                         "be seen by the wall-clock watchdog, which yields inconclusive, not a verdict",
                         "stack exhaustion depends on the build profile: quick runs the ladders in the monitoring profile and in the stock dev "
-                        "profile (largest frames, no tail-call elimination), thorough additionally in plain release"],
+                        "profile (largest frames, no tail-call elimination), thorough additionally in plain release",
+                        "stack exhaustion depends on the stack: ladders, long runs and flat documents are decoded on a thread with std::thread's "
+                        "default 2 MiB stack (where a user's decoder typically runs), not on the 8 MiB main thread; the unchanged tree needs "
+                        "less than 512 KiB for 128 nested levels in the dev profile"],
         "require_strata": {"both": ["outcome:from_str:ok", "outcome:from_str:err", "outcome:reader:ok", "outcome:reader:err", "outcome:lazy:ok",
                                     "outcome:lazy:err", "outcome:json_slice:ok", "outcome:json_slice:err", "ladder-list:depth100000",
                                     "ladder-grid:depth100000", "ladder-json-list:depth100000", "prefix", "mutant", "corpus-mutant",
@@ -243,7 +246,8 @@ PROPS = {
                  "whose ref tags form cycles and self-loops and where a ref may resolve to an EMPTY record, through Dict::filter and through EvalContext over the real defs namespace "
                  "(tests/defs/defs.zinc) with a resolver that aborts the evaluation if asked more than 40 times (4*(records+1)+16)"),
         "assumptions": ["termination restated as bounded steps: lexer fuel for parsing, resolver-call cap for evaluation; a loop that touches "
-                        "neither is only seen by the wall-clock watchdog (inconclusive)"],
+                        "neither is only seen by the wall-clock watchdog (inconclusive)",
+                        "ladders, long runs and flat chains are parsed on a thread with std::thread's default 2 MiB stack, in the monitoring and the dev profile"],
         "require_strata": {"both": ["outcome:ok", "outcome:err", "eval:returned", "ladder-paren:depth100000", "prefix", "mutant", "soup", "relation"]},
         "min_evals": {"quick": 300_000, "thorough": 10_000_000},
     },
